@@ -439,11 +439,6 @@ func sweepCases(rnd *rand.Rand, thorough bool, emit func(gc genCase)) {
 				rows[i] = message.Row{[]byte("same"), nil, []byte("same same same same")}
 			}
 			add(v, "compressible rows", comp, plainFrame(v, 7, &message.RowsResult{Metadata: &message.RowsMetadata{ColumnCount: 3}, Data: rows}))
-			if comp == "lz4" && (thorough || v == v4) {
-				// a repeat at distance exactly 65536 (pierrec/lz4 v4.0.3 encodes the offset as 0)
-				tok := append(append(bytes.Repeat([]byte{'a'}, 65534), 0, 0, 0, 0), bytes.Repeat([]byte{'a'}, 15)...)
-				add(v, "lz4 distance=65536", comp, plainFrame(v, 7, &message.AuthResponse{Token: tok}))
-			}
 			noise := make([]byte, 4096)
 			x := uint32(12345)
 			for i := range noise {
@@ -493,8 +488,24 @@ func randomCase(c *chooser) genCase {
 	}
 }
 
-// allCases streams the whole generator: enumeration, sweeps, then n seeded random cases.
+// corpusCases: fixed cases that every run emits first (minimal reproductions of findings).
+func corpusCases(thorough bool, emit func(gc genCase)) {
+	// pierrec/lz4 v4.0.3: a repeat at distance exactly 65536 is encoded with offset 0 (known finding "lz4-offset-65536")
+	tok := append(append(bytes.Repeat([]byte{'a'}, 65534), 0, 0, 0, 0), bytes.Repeat([]byte{'a'}, 15)...)
+	vs := []primitive.ProtocolVersion{v4}
+	if thorough {
+		vs = allVersions
+	}
+	for _, v := range vs {
+		f := plainFrame(v, 1, &message.AuthResponse{Token: tok})
+		f.Header.Flags |= primitive.HeaderFlagCompressed
+		emit(genCase{kind: "AuthResponse", version: v, comp: "lz4", phase: "corpus", class: "token='a'*65534+00000000+'a'*15", f: f})
+	}
+}
+
+// allCases streams the whole generator: corpus, enumeration, sweeps, then n seeded random cases.
 func allCases(n int, thorough bool, seed int64, emit func(gc genCase)) {
+	corpusCases(thorough, emit)
 	enumCases(emit)
 	rnd := rand.New(rand.NewSource(seed))
 	sweepCases(rnd, thorough, emit)
